@@ -343,13 +343,11 @@ def processLine (acc : Acc) (line : String) : Acc :=
                (if comps.contains "token" then (match m.tok with | some t => tokDiff t implPost.evm | none => "") ++ " " else "") ++
                (if comps.contains "evm" then m.evmNote else "")
         -- what takes a world out of the scope of C03 (`HOpOK`): an accepted deviation, a forged receipt, a
-        -- self-destruct, and an accepted ConvertCoin with a denomination of hex-address form (finding E1:
-        -- the operation itself is still monitored, the world after it is no longer closed)
+        -- self-destruct
         let taint := implOk && (dev != "-" ||
           (match op with
            | .k (.hook _) => true
            | .sd _ => true
-           | .k (.convertCoin m) => isHexAddress m.denom.s
            | _ => false))
         { acc with cur := implPost, lk := lk, clean := acc.clean && !taint, prev := some (op, implOk, implResp, acc.cur, dev == "-"),
                    out := (acc.out.push l) ++ viol.toArray }
